@@ -1,0 +1,17 @@
+//go:build verif
+
+package threshold
+
+// Read-only wrappers for the conformance harness (build tag verif only).
+
+func VerifEncodeAck(digest string, sender uint16, round uint8) []byte {
+	return newRBCEncoding(digest, sender, round)
+}
+
+func VerifDecodeAck(b []byte) (digest []byte, sender uint16, round uint8, err error) {
+	return rbcEncoding(b).Ack()
+}
+
+func VerifSyncTopic(members []uint16) []byte {
+	return membershipSyncTopicName(members)
+}
